@@ -25,6 +25,11 @@ CMP = [
     "W > 0",
     "not X = Y",
     "X = -Y",
+    "X >= Y+1",
+    "X <= Y+1",
+    "not X < Y+1",
+    "W >= X+Y",
+    "Y >= 2",
 ]
 AGG = [
     "N = #sum { Z : s(Z) }",
@@ -84,6 +89,10 @@ CONTEXTS = [
     ("w", ":~ {B}. [X@1,Y]"),
     ("wN", ":~ {B}. [N@1]"),
     ("rec", "p(W) :- {B}; W < 4; W > -4."),
+    # a variable bound only by an equality and used in a head condition
+    ("hc_choice", "{{ a(X) : ds(D) }} :- {B}; D = X + 1."),
+    ("hc_disj", "a(X) : ds(D) ; b(X) :- {B}; D = X + 1."),
+    ("hc_hagg", "1 #count {{ Z : a(Z) : ds(Z), Z < D }} :- {B}; D = X + 1."),
 ]
 
 BASE = "{ s(Z) : ds(Z) }. { t(Z) : ds(Z) }."
@@ -109,7 +118,9 @@ def jobs(tier: str):
                     continue
                 body = "; ".join(binders + list(lits))
                 for cname, ctx in CONTEXTS:
-                    if tier == "quick" and cname not in ("rX", "rN", "w"):
+                    if tier == "quick" and cname not in ("rX", "rN", "w") and not (cname.startswith("hc_") and len(lits) == 1):
+                        continue
+                    if cname.startswith("hc_") and bname == "none":
                         continue
                     if tier == "quick" and bname != "pq" and len(lits) == 2:
                         continue
